@@ -3,6 +3,7 @@ pub mod api;
 pub mod bfs;
 pub mod bulk;
 pub mod cli;
+pub mod faults;
 pub mod gen;
 pub mod hist;
 pub mod iters;
@@ -19,6 +20,7 @@ pub fn replay_other(mode: &str, rp: &serde_json::Value, a: &cli::Args, sink: &mu
     match mode {
         "iters" => iters::replay(rp, a, sink, journal),
         "serde" => serde_chk::replay(rp, sink),
+        "faults" => faults::replay(rp, sink, journal),
         _ => {
             eprintln!("replay: unknown mode {}", mode);
             2
@@ -49,6 +51,7 @@ pub fn worker_main() {
         "iters" => iters::mode_iters(&a),
         "bulk" => bulk::mode_bulk(&a),
         "serde" => serde_chk::mode_serde(&a),
+        "faults" => faults::mode_faults(&a),
         other => {
             eprintln!("unknown mode {}", other);
             2
